@@ -98,8 +98,15 @@ func cmdCheck(args []string) {
 		seed, _ = strconv.ParseInt(s, 10, 64)
 	}
 	start := time.Now()
-	outDir = filepath.Join(verifDir(), "out", "vc", prop)
+	// one query directory per process: two checks (or a check and an `apdvc vc`) running at the same time must
+	// never read each other's query files
+	outDir = filepath.Join(verifDir(), "out", "vc", fmt.Sprintf("%s.%d", prop, os.Getpid()))
 	os.RemoveAll(outDir)
+	if old, _ := filepath.Glob(filepath.Join(verifDir(), "out", "vc", prop+".*")); len(old) > 40 {
+		for _, d := range old[:len(old)-40] {
+			os.RemoveAll(d) // keep the disk bounded: directories of runs that reported violations are kept for replay
+		}
+	}
 	W, err := LoadWorld(repoDir())
 	if err != nil {
 		// the repository does not load: nothing can be decided
@@ -358,6 +365,9 @@ func cmdCheck(args []string) {
 	}
 	if rtcFail > 0 {
 		os.Exit(1)
+	}
+	if len(violations) == 0 && len(problems) == 0 && boundedFail == "" {
+		os.RemoveAll(outDir) // nothing to replay
 	}
 	if len(violations) > 0 || len(problems) > 0 || len(obls) == 0 {
 		if len(obls) == 0 {
